@@ -306,3 +306,6 @@ w("C11", "polars check_nullable renames instead of selecting the output column",
   "                    check_output=isna.collect().rename(\n                        {column: CHECK_OUTPUT_KEY}\n                    ),")
 w("C19", "polars null outputs undecided when ignore_na is False", BL + "checks.py",
   "        else:\n            # polars aggregations skip nulls: a null output counts as a\n            # failure when null values are not ignored\n            results = results.with_columns(\n                pl.col(CHECK_OUTPUT_KEY).fill_null(False)\n            )\n", "")
+w("C12", "dataframe-level dtype written as an object again", "pandera/io/pandas_io.py",
+  "        \"dtype\": (\n            None\n            if dataframe_schema.dtype is None\n            else str(dataframe_schema.dtype)\n        ),\n",
+  "        \"dtype\": dataframe_schema.dtype,\n")
